@@ -192,8 +192,8 @@ POOL = (
     [(k, s) for s, k in refgrammar.KEYWORD_KIND.items()]
     + [(c, c) for c in refgrammar.LITERALS]
     + [("NL", "\n"), ("NL", "\n"), (";", ";")]
-    + [("ID", s) for s in ["g", "q", "a", "x", "foo", "a.b", "prepare_all"]]
-    + [("DOTID", ".m"), ("DOTID", ".")]
+    + [("ID", s) for s in ["g", "q", "a", "x", "foo", "a.b", "prepare_all", "a.1", "q.0x.y_"]]
+    + [("DOTID", ".m"), ("DOTID", "."), ("DOTID", ".m.2x")]
     + [("INT", s) for s in ["0", "1", "7", "-1", "+3"]]
     + [("NUMBER", s) for s in ["0.5", "-1.5e-3", "2.0"]]
     + [("BININT", "'01'"), ("BININT", "'1'")]
